@@ -55,7 +55,7 @@ def main(ctx):
             for ci, cfg in enumerate(cfgs):
                 for lo in range(0, 256, 16):
                     jobs.append({"kind": "rs_hs", "role": role, "cfg": cfg, "b1": [lo, lo + 16],
-                                 "mode": ("all" if ci < 2 else "main") if thorough else
+                                 "mode": ("all" if ci < 1 else "main") if thorough else
                                  ("main" if ci == 0 else "light")})
         # ---- B. RawSocket limits
         bsids = SIDS + (["json.batched", "cbor.batched"] if thorough else [])
